@@ -159,6 +159,27 @@ Proof.
 Qed.
 Print Assumptions C04_rows_never_inspected.
 
+(* Second entry point: a lazily backed frame fed by SEVERAL TABLES (DataFrame.from_arrow).  The row source
+   (cnext: next row of the current table, else on to the next table that has a row - empty tables are
+   skipped; None only when no table has a row left) yields exactly the concatenation of the tables, so the
+   frame answers every history as the generator-backed frame over that concatenation does - wherever the
+   table boundaries fall and however many empty tables lie between them: once a fetch has reported the end,
+   it is the end. *)
+Theorem C04_chunked_source_agrees :
+  forall (A : Type) (cs : list (list A)),
+  (cnext cs = None <-> concat cs = []) /\
+  (forall r cs', cnext cs = Some (r, cs') -> concat cs = r :: concat cs') /\
+  chunk_rows cs = concat cs /\
+  (forall ops, run (init_chunked cs) ops = run (init_lazy (concat cs)) ops) /\
+  (forall cs2 ops, concat cs2 = concat cs -> run (init_chunked cs2) ops = run (init_chunked cs) ops).
+Proof.
+  intros A cs. split; [apply cnext_none|]. split; [apply cnext_some|]. split; [apply chunk_rows_concat|].
+  split.
+  - intros ops. unfold init_chunked. now rewrite chunk_rows_concat.
+  - intros cs2 ops H. unfold init_chunked. now rewrite !chunk_rows_concat, H.
+Qed.
+Print Assumptions C04_chunked_source_agrees.
+
 (* Lazily backed frame read only through the cursor (failed append calls allowed: they leave
    the generator alone): fetched ++ not-yet-yielded is the
    original row sequence (so the fetched rows are a prefix, in order, none skipped or
@@ -213,4 +234,11 @@ Proof. split; [repeat constructor|split; reflexivity]. Qed.
 Example C04_nonvacuous_equal_rows :
   snd (run (init_eager [tt; tt; tt]) [FetchMany (Some 2%Z); FetchOne; FetchMany (Some 2%Z); FetchOne; FetchAll]) =
     [ORows [tt; tt]; ORow (Some tt); ORows []; ORow None; ORows []].
+Proof. reflexivity. Qed.
+
+(* Non-vacuity for C04_chunked_source_agrees: three rows, an empty table, two rows - fetchall delivers all
+   five, and the end is final. *)
+Example C04_nonvacuous_chunked :
+  snd (run (init_chunked [[1; 2; 3]; []; [4; 5]]%Z) [FetchMany (Some 4%Z); FetchAll; FetchOne; FetchMany (Some 3%Z)]) =
+    [ORows [1; 2; 3; 4]%Z; ORows [5]%Z; ORow None; ORows []].
 Proof. reflexivity. Qed.
